@@ -1,6 +1,8 @@
 import KyupyVerif.Proofs.NetlistBF
 import KyupyVerif.Proofs.BenchText
 import KyupyVerif.Proofs.VerilogText
+import KyupyVerif.Proofs.BenchEnd
+import KyupyVerif.Proofs.SemL
 /-! # C11 — parsed Verilog and bench netlists simulate as the described netlist
 
 Objects of the theorems: two hand-written models of `kyupy/verilog.py` and `kyupy/bench.py`.
@@ -694,5 +696,180 @@ example : (toSel (.sig "4'hA" none)).map sigsel = some (.many ["1'b1", "1'b0", "
     (toSel (.cat [.sig "x" none, .sig "2'B10" none])).map sigsel = some (.many ["x", "1'b1", "1'b0"]) ∧
     (toSel (.sig "a'b" none)).isNone = true := by decide +kernel
 end VerilogText
+
+/-! ## `parsed_sem`, bench: the parsed circuit has the Boolean function the description denotes
+
+`benchNet stmts` (Model/CircNet.lean) is the canonical dump (`KV.Net`: what `dump_net` prints for a real `Circuit`, what every
+simulation theorem of C01/C02 speaks about) of the circuit `bench stmts`; `BenchModel stmts z prim a σ` (Model/BenchSem.lean) is
+the statement-level denotation, written without reference to the circuit: the environment `σ : signal name → α` satisfies every
+gate statement (`σ g = prim P (σ d₀) …`, `P` by longest prefix family and operand count, missing operands read `z`; a `dff` /
+`latch` statement: `σ g` = the value assigned to that state element) and gives every other name its assigned value (ports) or `z`.
+`NetLabelling net z neg prim a v`: the labelling `v` of the lines satisfies the specification evaluator's gate equation `lineEq`
+on every line (`consistentB` as a proposition, `netlabelling_is_consistentB`).  Any value domain `α`, any op algebra. -/
+section ParsedSem
+open KV KV.Sig
+
+/-- the dump of the parsed circuit is well formed — for EVERY statement list (and every model circuit) -/
+theorem bench_net_wf (stmts : List BStmt) : (benchNet stmts).wfB = true := toNet_wf _ _
+
+/-- `benchOKB` is what it says: gate names pairwise different, no kind `__fork__` -/
+theorem bench_ok_iff (stmts : List BStmt) (h : benchOKB stmts = true) :
+    ((benchGates stmts).map (·.name)).Nodup ∧ ∀ g ∈ benchGates stmts, g.kind ≠ forkKind := by
+  obtain ⟨h1, h2⟩ := benchOK_of stmts h
+  exact ⟨h1, fun g hg => by simpa using List.all_eq_true.mp h2 g hg⟩
+
+/-- the ports of the net are the names of the INPUT/OUTPUT statements in text order, each the fork of that name -/
+theorem bench_net_ports (stmts : List BStmt) :
+    (benchNet stmts).io = (benchPorts stmts).map (fun s => (bench stmts).nodeIdx (.fork s)) ∧
+    benchPorts stmts = stmts.flatMap benchPortsOf ∧
+    ∀ s ∈ benchPorts stmts, ∃ h : (bench stmts).nodeIdx (.fork s) < (bench stmts).nodes.length,
+      ((bench stmts).nodes[(bench stmts).nodeIdx (.fork s)]).kind = forkKind ∧
+      ((bench stmts).nodes[(bench stmts).nodeIdx (.fork s)]).name = s := by
+  refine ⟨?_, ?_, ?_⟩
+  · show (bench stmts).ioBench = _
+    unfold Circ.ioBench; rw [bench_ioB]
+  · rw [← bench_ioB, bench_io_order]
+  · intro s hs
+    exact ⟨bench_resolved_port s hs, resolved_fork_spec _ s (bench_resolved_port s hs)⟩
+
+/-- `s_nodes` of the net: the port forks in text order, then the cells of the flip-flop statements in text order, then the cells
+of the latch statements (`benchSNames`); `benchSPos` is the position in this list -/
+theorem bench_snodes (stmts : List BStmt) (hok : benchOKB stmts = true) :
+    (benchNet stmts).sNodes = (benchSNames stmts).map (bench stmts).nodeIdx ∧
+    ∀ e ∈ benchSNames stmts, (benchNet stmts).sPos ((bench stmts).nodeIdx e) = some (benchSPos stmts e) := by
+  have hok' := benchOK_of stmts hok
+  refine ⟨benchNet_sNodes hok', fun e he => ?_⟩
+  obtain ⟨h1, h2⟩ := sNames_resolved hok' e he
+  rw [benchNet_sPos hok' e h1 h2]
+  simp [he]
+
+/-- **`bench_parsed_sem`**: for every description that builds (`benchOKB`), every value domain, op algebra and assignment:
+(1) the net has one line per gate statement and operand (`benchSigs`: the signal each line carries — the line from cell `g` to
+fork `g` carries `g`, the line from fork `d` into a gate pin carries `d`);
+(2) every model `σ` of the description induces a labelling of the lines consistent with the netlist;
+(3) every labelling consistent with the netlist is induced by a model;
+(4) two models inducing the same labelling are equal — models and consistent labellings correspond one-to-one.
+Relational: no acyclicity hypothesis; a cyclic description has as many models as the net has consistent labellings. -/
+theorem bench_parsed_sem {α : Type} (stmts : List BStmt) (hok : benchOKB stmts = true) (z : α) (neg : α → α)
+    (prim : String → α → α → α → α → α) (a : Nat → α) :
+    (benchNet stmts).lines.size = (benchSigs stmts).length ∧
+    (∀ σ, BenchModel stmts z prim a σ → NetLabelling (benchNet stmts) z neg prim a (benchLabel stmts σ)) ∧
+    (∀ v, NetLabelling (benchNet stmts) z neg prim a v →
+      ∃ σ, BenchModel stmts z prim a σ ∧ ∀ i, i < (benchNet stmts).lines.size → v i = benchLabel stmts σ i) ∧
+    (∀ σ σ', BenchModel stmts z prim a σ → BenchModel stmts z prim a σ' →
+      (∀ i, i < (benchNet stmts).lines.size → benchLabel stmts σ i = benchLabel stmts σ' i) → σ = σ') := by
+  have hok' := benchOK_of stmts hok
+  refine ⟨by rw [benchNet_lines_size, benchSigs_length], fun σ hm => bench_model_labelling hok' z neg prim a σ hm,
+    fun v hv => ⟨_, bench_labelling_model hok' z neg prim a v hv⟩, fun σ σ' h1 h2 h => bench_model_unique hok' z prim a σ σ' h1 h2 h⟩
+
+/-- the label of line `i` under an environment is the value of the signal `benchSigs[i]` -/
+theorem bench_label_def {α : Type} (stmts : List BStmt) (σ : String → α) (i : Nat) :
+    benchLabel stmts σ i = σ ((benchSigs stmts).getD i "") := rfl
+
+/-- `NetLabelling` is the proposition the oracle's Boolean checker `consistentB` decides (on `benchNet` of a description that builds) -/
+theorem netlabelling_is_consistentB {α : Type} [BEq α] [LawfulBEq α] (stmts : List BStmt) (hok : benchOKB stmts = true) (z : α)
+    (neg : α → α) (prim : String → α → α → α → α → α) (a : Nat → α) (v : Array α) :
+    consistentB (benchNet stmts) z neg prim a v = true ↔ NetLabelling (benchNet stmts) z neg prim a (fun i => v.getD i z) := by
+  apply netLabelling_iff_consistentB
+  intro l hl
+  have hok' := benchOK_of stmts hok
+  rw [benchNet_lines_size] at hl
+  unfold benchNet
+  rw [toNet_nodes_size, toNet_line _ _ l (by rw [bench_flat]; exact hl)]
+  have := bench_resolved_driver hok' _ (List.getElem_mem hl)
+  simp only [bench_flat]
+  exact this
+
+/-- **what is observed**: under the labelling of an environment `σ`, the value captured at `s_nodes` position `j` (the line on
+input pin 0 of the `j`-th interface node: what `c_to_s` copies, `evalCapturesG`) is — for an output port `o` (a port some gate
+statement defines) `σ o`; for a state element `q = DFF(d, …)` its data operand `σ d`; nothing for assigned ports -/
+theorem bench_captured {α : Type} (stmts : List BStmt) (hok : benchOKB stmts = true) (σ : String → α) :
+    ((benchNet stmts).sNodes.map fun n => ((benchNet stmts).node n).inPin 0 |>.map (benchLabel stmts σ)) =
+      benchCaptures stmts σ :=
+  bench_captures (benchOK_of stmts hok) σ
+
+/-- the driver's acceptance check is sound: an accepted table IS a model (this is how the correspondence run evaluates `σ`) -/
+theorem bench_checker_sound {α : Type} [BEq α] [LawfulBEq α] (stmts : List BStmt) (z : α) (prim : String → α → α → α → α → α)
+    (a : Nat → α) (tab : List (String × α)) (h : benchModelB stmts z prim a tab = true) :
+    BenchModel stmts z prim a (envOf stmts z a tab) := benchModelB_sound z prim a tab h
+
+/-- **`bench_end_to_end`** (2-valued; composition with C01/C02 `sim2_all_circuits` / `gate_equations_are_netlist`): for every
+description that builds, every topological order of its net (`orderOKB`) that schedules every line (`linesDrivenB`; forks are
+forks: `forksOKB` — three decidable conditions on net and order, evaluated by the driver on every real circuit and order) and every
+stimulus `env`: there is exactly ONE model `σ` of the description under the assignment the stimulus gives to the interface
+positions, the 2-valued `LogicSim` result (`exec semL2n` of the rows the `SimOps` model generates) is `σ` of the line's signal on
+every line, and what is captured at every interface position is what the description observes: `σ o` at an output port `o`, `σ d` at
+a flip-flop `q = DFF(d)`.  Existence and uniqueness of the model are CONCLUSIONS (an order exists only for acyclic nets). -/
+theorem bench_end_to_end (stmts : List BStmt) (hok : benchOKB stmts = true) (order : List Nat)
+    (ho : orderOKB (benchNet stmts) order = true) (hfk : forksOKB (benchNet stmts) order = true)
+    (hall : linesDrivenB Gen.kindPrefixes (benchNet stmts) order = true) (env : Nat → Bool) :
+    ∃ σ, BenchModel stmts (env (benchNet stmts).idx.zero) prim2 (fun p => env ((benchNet stmts).idx.ppi + p)) σ ∧
+      (∀ σ', BenchModel stmts (env (benchNet stmts).idx.zero) prim2 (fun p => env ((benchNet stmts).idx.ppi + p)) σ' → σ' = σ) ∧
+      (∀ i, i < (benchNet stmts).lines.size →
+        exec semL2n ((genOps Gen.kindPrefixes (benchNet stmts) order false).map OpRow.toOp) env i = benchLabel stmts σ i) ∧
+      ((benchNet stmts).sNodes.map fun n => ((benchNet stmts).node n).inPin 0 |>.map
+        (exec semL2n ((genOps Gen.kindPrefixes (benchNet stmts) order false).map OpRow.toOp) env)) = benchCaptures stmts σ :=
+  bench_sim_generic (benchOK_of stmts hok) semL2n specL2 (fun _ h xs => semL2n_eq_spec h xs) (!·) prim2 semSpec2 order ho hfk hall env
+
+/-- the same for the 8-valued simulation against the documented algebra (`prim8`; `semL8` = the real dispatch of `c_prop`) -/
+theorem bench_end_to_end8 (stmts : List BStmt) (hok : benchOKB stmts = true) (order : List Nat)
+    (ho : orderOKB (benchNet stmts) order = true) (hfk : forksOKB (benchNet stmts) order = true)
+    (hall : linesDrivenB Gen.kindPrefixes (benchNet stmts) order = true) (env : Nat → V3) :
+    ∃ σ, BenchModel stmts (env (benchNet stmts).idx.zero) prim8 (fun p => env ((benchNet stmts).idx.ppi + p)) σ ∧
+      (∀ σ', BenchModel stmts (env (benchNet stmts).idx.zero) prim8 (fun p => env ((benchNet stmts).idx.ppi + p)) σ' → σ' = σ) ∧
+      (∀ i, i < (benchNet stmts).lines.size →
+        exec semL8 ((genOps Gen.kindPrefixes (benchNet stmts) order false).map OpRow.toOp) env i = benchLabel stmts σ i) ∧
+      ((benchNet stmts).sNodes.map fun n => ((benchNet stmts).node n).inPin 0 |>.map
+        (exec semL8 ((genOps Gen.kindPrefixes (benchNet stmts) order false).map OpRow.toOp) env)) = benchCaptures stmts σ :=
+  bench_sim_generic (benchOK_of stmts hok) semL8 specL8 (fun _ h xs => semL8_eq_spec h xs) specNot prim8 semSpec8 order ho hfk hall env
+
+/-- … and the 4-valued one -/
+theorem bench_end_to_end4 (stmts : List BStmt) (hok : benchOKB stmts = true) (order : List Nat)
+    (ho : orderOKB (benchNet stmts) order = true) (hfk : forksOKB (benchNet stmts) order = true)
+    (hall : linesDrivenB Gen.kindPrefixes (benchNet stmts) order = true) (env : Nat → V2) :
+    ∃ σ, BenchModel stmts (env (benchNet stmts).idx.zero) prim4 (fun p => env ((benchNet stmts).idx.ppi + p)) σ ∧
+      (∀ σ', BenchModel stmts (env (benchNet stmts).idx.zero) prim4 (fun p => env ((benchNet stmts).idx.ppi + p)) σ' → σ' = σ) ∧
+      (∀ i, i < (benchNet stmts).lines.size →
+        exec semL4 ((genOps Gen.kindPrefixes (benchNet stmts) order false).map OpRow.toOp) env i = benchLabel stmts σ i) ∧
+      ((benchNet stmts).sNodes.map fun n => ((benchNet stmts).node n).inPin 0 |>.map
+        (exec semL4 ((genOps Gen.kindPrefixes (benchNet stmts) order false).map OpRow.toOp) env)) = benchCaptures stmts σ :=
+  bench_sim_generic (benchOK_of stmts hok) semL4 specL4 (fun _ h xs => semL4_eq_spec h xs) spec4Not prim4 semSpec4 order ho hfk hall env
+
+/-- **from TEXT**: for every statement list with writable names and EVERY layout of its token stream (any ignorable text between
+the tokens, `bench_text_layout_irrelevant`), the net of the circuit built from the model's reading of the text is `benchNet stmts`
+— so `bench_parsed_sem`, `bench_captured`, `bench_end_to_end` speak about the circuit parsed from that text -/
+theorem bench_text_to_net (stmts : List BStmt) (hv : stmts.all KV.BenchText.validStmt = true) (g0 : List Char)
+    (l : List (KV.BenchText.Tok × List Char)) (hl : l.map (·.1) = KV.BenchText.benchToks stmts)
+    (hg0 : KV.BenchText.gapB .ws g0 = true) (hlay : KV.BenchText.layoutOK l = true) :
+    (KV.BenchText.circOfText (String.ofList (g0 ++ KV.BenchText.renderTG l))).map (fun C => C.toNet C.ioBench) =
+      some (benchNet stmts) := by
+  simp only [KV.BenchText.circOfText, bench_text_layout_irrelevant stmts hv g0 l hl hg0 hlay, Option.map_some]
+  rfl
+
+/-! ### non-vacuity: `INPUT(a) INPUT(b) OUTPUT(z)  q = DFF(n)  n = NAND(a, q)  z = XOR(n, b)` -/
+def exDff : List BStmt :=
+  [.intf ["a"], .intf ["b"], .intf ["z"], .gate "q" "DFF" ["n"], .gate "n" "NAND" ["a", "q"], .gate "z" "XOR" ["n", "b"]]
+/-- assignment: `a = 1`, `b = 0`, state of `q` = 1 (positions 0, 1, 3; position 2 is the output port) -/
+def exDffA : Nat → Bool := fun p => p == 0 || p == 3
+
+example : KV.BenchText.parseBench "INPUT(a) INPUT(b) OUTPUT(z)\nq = DFF(n)\nn = NAND(a, q)\nz = XOR(n, b)" = some exDff := by decide +kernel
+example : exDff.all KV.BenchText.validStmt = true ∧ benchOKB exDff = true ∧ benchClosedB exDff = true := by decide +kernel
+example : benchSNames exDff = [.fork "a", .fork "b", .fork "z", .cell "q" 0] ∧ benchSigs exDff = ["q", "n", "n", "a", "q", "z", "n", "b"] := by
+  decide +kernel
+/-- the model: `q = 1` (state), `n = NAND(1, 1) = 0`, `z = XOR(0, 0) = 0`; the checker accepts it; observed: `z = 0`, next state of `q` = `n = 0` -/
+example : benchEval exDff false prim2 exDffA = [("q", true), ("n", false), ("z", false)] ∧
+    benchModelB exDff false prim2 exDffA (benchEval exDff false prim2 exDffA) = true ∧
+    benchCaptures exDff (envOf exDff false exDffA (benchEval exDff false prim2 exDffA)) = [none, none, some false, some false] := by
+  decide +kernel
+/-- the net (8 nodes: forks a b z n, cell q, fork q, cells n z; 8 lines) and an order satisfying the hypotheses of `bench_end_to_end` -/
+example : (benchNet exDff).io = [0, 1, 2] ∧ (benchNet exDff).sNodes = [0, 1, 2, 4] ∧ (benchNet exDff).lines.size = 8 ∧
+    orderOKB (benchNet exDff) [0, 1, 4, 5, 6, 3, 7, 2] = true ∧ forksOKB (benchNet exDff) [0, 1, 4, 5, 6, 3, 7, 2] = true ∧
+    linesDrivenB Gen.kindPrefixes (benchNet exDff) [0, 1, 4, 5, 6, 3, 7, 2] = true := by decide +kernel
+/-- kind families and arities: the primitive a gate statement means -/
+example : specPrimName "nand" false false = some "NAND2" ∧ specPrimName "nand" true false = some "NAND3" ∧
+    specPrimName "and" true true = some "AND4" ∧ specPrimName "not" false false = some "INV1" ∧
+    specPrimName "buff" false false = some "BUF1" ∧ specPrimName "__const1__" false false = some "INV1" ∧
+    prim2 "NAND2" true true false false = false ∧ prim2 "INV1" false false false false = true := by decide +kernel
+end ParsedSem
 
 end KV.C11
